@@ -19,6 +19,16 @@ INLANG = [("child-has-other-parent", "entry (|D| D child ?(parent != D))"),
           ("DIE-not-equal-to-itself", "entry dup ?ne"),
           ("child-not-found-among-parents-children", "entry ?(parent) (|D| D !(parent child == D))"),
           ("root-of-child-differs", "entry (|D| D child ?(root != D root))")]
+# the same laws for values that change view on the way (a raw DIE / unit made cooked, a cooked one made raw): whatever DIE a view
+# hands out, `root` ends its `parent` chain and satisfies ?root -- partial-unit roots included
+INLANG += [("mixed-view:root-is-not-?root:raw-unit-cooked", "raw unit cooked root !root"),
+           ("mixed-view:root-is-not-?root:raw-entry-cooked", "raw entry cooked !(root ?root)"),
+           ("mixed-view:root-differs-from-end-of-parent-chain:raw-entry-cooked", "raw entry cooked ?((root) != (parent* !(parent)))"),
+           ("mixed-view:parent-chain-end-is-not-?root:raw-entry-cooked", "raw entry cooked (parent* !(parent)) !root"),
+           ("mixed-view:root-is-not-?root:raw-unit-cooked-entry", "raw unit cooked entry !(root ?root)"),
+           ("mixed-view:root-is-not-?root:entry-raw", "entry raw !(root ?root)"),
+           ("mixed-view:child-has-other-parent:raw-entry-cooked", "raw entry cooked (|D| D child ?(parent != D))"),
+           ("mixed-view:root-is-not-?root:unit-root-raw-cooked", "unit root raw cooked !root")]
 INLANG_HOLD = [("unit-entry-differs-from-entry", "(|Dw| ?([Dw unit entry] == [Dw entry]))"),
                ("unit-root-child*-differs-from-unit-entry-count", "(|Dw| ?([Dw unit (|U| [U entry] length)] == [Dw unit (|U| [U root child*] length)]))")]
 
